@@ -166,6 +166,91 @@ fn event_buffer_roundtrips(rng: &mut Rng, out: &mut CaseOut, n: usize) {
     }
 }
 
+/// Row API: columns whose cells change representation while the buffer is being filled
+/// (dense -> sparse after a gap, int -> float promotion with and without a gap, late first value).
+fn rowapi_transitions(rng: &mut Rng, out: &mut CaseOut, n: usize) {
+    use locustdb_serialization::event_buffer::TableBuffer;
+    for round in 0..n {
+        let rows = 2 + rng.below(12);
+        let ncols = 1 + rng.below(4);
+        // per column: a script of cell kinds
+        let mut cols: Vec<(String, Vec<V>)> = Vec::new();
+        for c in 0..ncols {
+            let style = rng.below(6);
+            let mut vals = Vec::with_capacity(rows);
+            let switch = rng.below(rows);
+            for r in 0..rows {
+                let v = match style {
+                    // ints, then (after an optional gap) floats
+                    0 => if r < switch { V::Int(r as i64 * 3 - 4) } else if r == switch && rng.chance(0.5) { V::Null } else { V::Float(r as f64 + 0.5) },
+                    // ints with gaps, one float somewhere
+                    1 => if r == switch { V::Float(2.5) } else if rng.chance(0.4) { V::Null } else { V::Int(r as i64) },
+                    // first value arrives late
+                    2 => if r < switch { V::Null } else if rng.chance(0.5) { V::Int(7 + r as i64) } else { V::Float(0.25 * r as f64) },
+                    // floats with gaps
+                    3 => if rng.chance(0.4) { V::Null } else { V::Float(r as f64 * 1.5) },
+                    // ints with gaps
+                    4 => if rng.chance(0.4) { V::Null } else { V::Int(i64::MAX - 1 - r as i64) },
+                    // dense strings
+                    _ => V::Str(format!("s{}", r)),
+                };
+                vals.push(v);
+            }
+            cols.push((format!("c{}", c), vals));
+        }
+        let mut tb = TableBuffer::default();
+        for r in 0..rows {
+            let mut row: Vec<(String, AnyVal)> = vec![("timestamp".to_string(), AnyVal::Float(r as f64))];
+            for (name, vals) in &cols {
+                let v = match &vals[r] {
+                    V::Null => continue,
+                    V::Int(i) => AnyVal::Int(*i),
+                    V::Float(f) => AnyVal::Float(*f),
+                    V::Str(s) => AnyVal::Str(s.clone()),
+                };
+                row.push((name.clone(), v));
+            }
+            tb.push_row_and_timestamp(row);
+        }
+        let mut tables = HashMap::new();
+        tables.insert("t".to_string(), tb);
+        let eb = EventBuffer { tables };
+        out.eval(1);
+        let case = json!({"rows": rows, "columns": cols.iter().map(|(n, v)| (n.clone(), v.iter().map(|x| x.short()).collect::<Vec<_>>())).collect::<Vec<_>>()});
+        match EventBuffer::deserialize(&eb.serialize()) {
+            Ok(back) => {
+                let d = digest(&back);
+                let ok = d.get("t").map(|(r, got)| {
+                    *r == rows
+                        && cols.iter().all(|(name, want)| {
+                            let all_null = want.iter().all(|v| v.is_null());
+                            match got.get(name) {
+                                None => all_null,
+                                Some((_, cells)) => {
+                                    // a column that ever saw a float is a float column: ints are promoted with `as f64`
+                                    let is_float = want.iter().any(|v| matches!(v, V::Float(_)));
+                                    want.iter().enumerate().all(|(i, w)| {
+                                        let g = cells.get(i).cloned().unwrap_or(V::Null);
+                                        match (w, &g) {
+                                            (V::Int(x), V::Float(f)) if is_float => (*x as f64).to_bits() == f.to_bits(),
+                                            _ => *w == g,
+                                        }
+                                    }) && cells.iter().skip(want.len()).all(|v| v.is_null())
+                                }
+                            }
+                        })
+                }).unwrap_or(false);
+                if ok {
+                    out.distinct(format!("rowapi_transition|cols{}|rows{}|{}", ncols, rows, round % 7));
+                } else {
+                    out.fail(Failure::new("wire", "row_api_cells_misplaced", "rowapi", format!("row API buffer decodes to different cells: supplied {} got {:?}", case["columns"], d.get("t").map(|(r, c)| (r, c.iter().map(|(n, (k, v))| (n.clone(), *k, v.iter().map(|x| x.short()).collect::<Vec<_>>())).collect::<Vec<_>>()))), case));
+                }
+            }
+            Err(e) => out.fail(Failure::new("wire", "builder_roundtrip_error", "rowapi", format!("{}", e), case)),
+        }
+    }
+}
+
 fn int_sequences(rng: &mut Rng) -> Vec<(String, Vec<i64>)> {
     let mut v: Vec<(String, Vec<i64>)> = vec![
         ("empty".into(), vec![]),
@@ -342,6 +427,7 @@ pub fn run(ctx: &mut Ctx) {
         ctx.run(&id, "codec-roundtrip", json!({"round": i}), move |out, _op| {
             let mut rng = Rng::derive(seed, "c16", i);
             event_buffer_roundtrips(&mut rng, out, n);
+            rowapi_transitions(&mut rng, out, n * 4);
             response_roundtrips(&mut rng, out);
             xor_roundtrips(&mut rng, out);
         });
